@@ -26,6 +26,7 @@ CONSTANTS Writers,      \* set of writer names
           OptTail, OptLast, Limit, RCtx,   \* reader options; Limit = 0: none; RCtx = ALLC: all contexts
           MaxPulse,
           UseLock, DedupLe, SubFirst, CommitFirst, LimitFix, HbStops,
+          Ahead,        \* 0, or by how many ids the last history frame is dated ahead of the clock (an imported frame)
           Gen
 
 ALLC == -1
@@ -59,9 +60,16 @@ Log(a) == hist' = IF Gen THEN Append(hist, a) ELSE hist
 
 Following == Follow # "off"
 
+(* ids of the frames stored before anything starts: 1..Len(History) - or, with Ahead > 0, the last of them carries an  *)
+(* id ahead of the clock (it was imported): the ids handed out to appends start below it (known finding             *)
+(* C03-future-dated-history-drops-live: the live side drops everything at or below the last scanned id)             *)
+Future == IF Ahead = 0 \/ History = <<>> THEN {} ELSE {Len(History) + Ahead}
+HistIds == IF Future = {} THEN 1..Len(History) ELSE (1..(Len(History) - 1)) \cup Future
+HistCtx(i) == IF i \in Future THEN History[Len(History)] ELSE History[i]
+
 Init ==
-  /\ nextId = Len(History) + 1 /\ stream = 1..Len(History) /\ eph = {}
-  /\ fctx = [i \in 1..Len(History) |-> History[i]]
+  /\ nextId = (IF Future = {} THEN Len(History) + 1 ELSE Len(History)) /\ stream = HistIds /\ eph = {}
+  /\ fctx = [i \in HistIds |-> HistCtx(i)]
   /\ wpc = [w \in Writers |-> "idle"] /\ wi = [w \in Writers |-> 1] /\ wid = [w \in Writers |-> NONE]
   /\ lock = "free"
   /\ sub = FALSE /\ inbox = <<>> /\ lagged = FALSE
@@ -300,11 +308,12 @@ StartOK == \A i \in ToSet(Data(delivered)) : i > OptLast
 MustHave == {i \in (IF OptTail THEN {} ELSE stream) \cup sentAfterSub : InCtx(i) /\ i > OptLast}
 C03_Complete == (Following /\ Limit = 0 /\ Quiet /\ Open /\ ~lagged) => MustHave \subseteq ToSet(delivered)
 
-\* the only known way to lose a frame (DESIGN 6 #2): an ephemeral frame broadcast during the scan
-\* is dropped because a later stored frame was scanned
+\* the only known ways to lose a frame: an ephemeral frame broadcast during the scan is dropped because a later
+\* stored frame was scanned (DESIGN 0.5 #2); any frame appended while the stream is open is dropped because the scan
+\* ended on a frame dated ahead of the clock (DESIGN 0.5 #16)
 LostOnlyByKnown ==
   (Following /\ Limit = 0 /\ Quiet /\ Open /\ ~lagged) =>
-     \A i \in MustHave \ ToSet(delivered) : i \in eph /\ llast # NONE /\ i <= llast
+     \A i \in MustHave \ ToSet(delivered) : (i \in eph \/ llast \in Future) /\ llast # NONE /\ i <= llast
 
 C03_ThresholdOnce ==
   LET n == Len(SelectSeq(delivered, LAMBDA x : x = THRESH)) IN
@@ -312,13 +321,13 @@ C03_ThresholdOnce ==
   /\ (n = 1 => Following /\ Limit = 0 /\ ~OptTail)
 C03_ThresholdPlaced ==
   \A p \in 1..Len(delivered) : delivered[p] = THRESH =>
-      /\ {i \in (retBeforeSub \ eph) \cup (1..Len(History)) : InCtx(i) /\ i > OptLast} \subseteq ToSet(SubSeq(delivered, 1, p))
+      /\ {i \in (retBeforeSub \ eph) \cup HistIds : InCtx(i) /\ i > OptLast} \subseteq ToSet(SubSeq(delivered, 1, p))
       /\ \A q \in 1..(p - 1) : delivered[q] \notin eph
 
 C11_LimitNotExceeded == Limit # 0 => Len(Data(delivered)) + Len(Data(out)) <= Limit
 C11_LimitCloses == (Limit # 0 /\ Len(Data(delivered)) = Limit /\ WritersDone /\ hpc = "exit" /\ lpc \in {"exit", "wait"})
                       => WillClose
-C11_TailNoHistory == OptTail => ToSet(Data(delivered)) \cap (retBeforeSub \cup (1..Len(History))) = {}
+C11_TailNoHistory == OptTail => ToSet(Data(delivered)) \cap (retBeforeSub \cup HistIds) = {}
 C11_PulseOnlyIfAsked == (Follow # "hb") => \A p \in 1..Len(delivered) : delivered[p] # PULSE
 C11_NoSilentGap == (lagged /\ lpc = "exit" /\ hpc = "exit") => WillClose
 \* nothing is delivered after the stream was seen closed
